@@ -11,6 +11,7 @@ import (
 	"github.com/tetratelabs/wazero"
 	"github.com/tetratelabs/wazero/api"
 
+	"verif/internal/evid"
 	"verif/internal/refnum"
 	"verif/internal/wasmenc"
 	"verif/internal/wz"
@@ -19,12 +20,15 @@ import (
 // Operand-source variants:
 //
 //	param    every operand is a function parameter (v128: two i64 assembled by splat/replace_lane)
+//	keep     like param, but every operand is held in a local and read again after the instruction;
+//	         the function compares it with the copy in memory: operands must survive the instruction
 //	mem      every operand is loaded from memory right before the instruction
 //	mem<i>   operand i is loaded from memory right before the instruction, the others are parameters
 //	const<i> operand i is an immediate constant (T.const / v128.const), the others are parameters
 //	splat0   operand 0 is <shape>.splat of a scalar parameter, the others are loaded from memory
 const (
 	vParam  = "param"
+	vKeep   = "keep"
 	vMem    = "mem"
 	vSplat0 = "splat0"
 )
@@ -41,22 +45,24 @@ func constIdx(variant string) int {
 	return -1
 }
 
-// sources gives the source of each operand: 'p' parameter, 'm' memory, 'c' constant, 's' splat.
+// sources gives the source of each operand: 'p' parameter, 'k' parameter kept in a local and
+// re-read, 'm' memory, 'c' constant, 's' splat.
 func sources(variant string, n int) []byte {
 	src := make([]byte, n)
-	for i := range src {
-		src[i] = 'p'
+	fill := func(c byte) {
+		for i := range src {
+			src[i] = c
+		}
 	}
+	fill('p')
 	switch {
 	case variant == vParam:
+	case variant == vKeep:
+		fill('k')
 	case variant == vMem:
-		for i := range src {
-			src[i] = 'm'
-		}
+		fill('m')
 	case variant == vSplat0:
-		for i := range src {
-			src[i] = 'm'
-		}
+		fill('m')
 		src[0] = 's'
 	case strings.HasPrefix(variant, "mem"):
 		i, _ := strconv.Atoi(variant[3:])
@@ -72,9 +78,10 @@ func sources(variant string, n int) []byte {
 	return src
 }
 
-func hasMem(src []byte) bool {
+// hasAddr: the function's first parameter is the address of the tuple's operand slots.
+func hasAddr(src []byte) bool {
 	for _, c := range src {
-		if c == 'm' {
+		if c == 'm' || c == 'k' {
 			return true
 		}
 	}
@@ -83,7 +90,7 @@ func hasMem(src []byte) bool {
 
 // variantsOf lists the variants generated for an instruction.
 func variantsOf(op *refnum.Op) []string {
-	v := []string{vParam, vMem}
+	v := []string{vParam, vKeep, vMem}
 	if len(op.Params) > 1 {
 		for i := range op.Params {
 			v = append(v, memVariant(i))
@@ -111,12 +118,12 @@ func splatOf(s refnum.Shape) (byte, uint32) {
 // funcParams is the flattened parameter list of the one-instruction function.
 func funcParams(op *refnum.Op, src []byte) []byte {
 	var fp []byte
-	if hasMem(src) {
+	if hasAddr(src) {
 		fp = append(fp, wasmenc.I32)
 	}
 	for j, p := range op.Params {
 		switch src[j] {
-		case 'p':
+		case 'p', 'k':
 			if p.T == refnum.V128 {
 				fp = append(fp, wasmenc.I64, wasmenc.I64)
 			} else {
@@ -130,48 +137,61 @@ func funcParams(op *refnum.Op, src []byte) []byte {
 	return fp
 }
 
-// instance is one generated one-instruction function of a module: the instruction's lane /
-// shuffle immediate and (const variants) the constant operand.
+// instance is one generated one-instruction function: the instruction's lane / shuffle
+// immediate, (const variants) the constant operand, and the decoration: bit 0 = code using
+// pooled constants (v128.const, swizzle and shift masks, q15mulr) before the instruction,
+// bit 1 = the same after it. The decoration only writes to a scratch area.
 type instance struct {
 	Imm   []byte
 	Const refnum.V
+	Deco  int
+}
+
+// fn is one function of a generated module.
+type fn struct {
+	op      *refnum.Op
+	variant string
+	in      instance
 }
 
 const (
 	inBase    = 0
 	maxChunk  = 8192
-	slotBytes = 16
+	slotBytes = 16 // one operand slot
+	outBytes  = 32 // one result slot: the result (16 bytes), the flags word at +16
 )
 
-// memory layout: operand area at 0 (three 16-byte slots per tuple at most), result area behind it.
-// Modules that evaluate few tuples per call get a one-page memory (instantiation zeroes it).
+// memory layout: operand area at 0 (three 16-byte slots per tuple at most), result area behind
+// it, the last 64 bytes are scratch. Modules that evaluate few tuples per call get a one-page
+// memory (instantiation zeroes it).
 func layout(small bool) (pages uint32, outBase uint32, chunk int) {
 	if small {
-		return 1, 0xc000, 1016 // the last 128 bytes of the page stay free for the scratch word
+		return 1, 0x8000, 680
 	}
-	return 9, 0x60000, maxChunk // also room for the 16-bit sweep: 128 KiB in, 128 KiB out
+	return 11, 0x60000, maxChunk // also room for the 16-bit sweep: 128 KiB in, 128 KiB out
 }
 
-// scratchAddr is the word the canonical-slot probe stores the result to (outside both areas).
 func scratchAddr(small bool) int32 {
 	pages, _, _ := layout(small)
 	return int32(pages*65536 - 16)
 }
 
-// hasCanon: instructions with an i32 or f32 result get the canonical-slot probe: the
-// one-instruction function returns, besides the result r, a flag word computed by consuming r
-// inside the guest. x = r (f32: i32.reinterpret_f32 r), y = the value reloaded after storing r
-// to memory (a store writes exactly the low 32 bits). A 32-bit value is only "the specified
-// value" if every consumer sees the same as for y:
+// The flags word every generated function returns besides its result (all bits must be 0):
+//
+// bits 0..10, instructions with an i32 or f32 result (canonical-slot probe): x = r (f32:
+// i32.reinterpret_f32 r), y = the value reloaded after storing r to memory (a store writes
+// exactly the low 32 bits); every consumer must see x as it sees y:
 //
 //	bit0 i32.ne(x,y)  bit1 i32.lt_u(x,y)  bit2 i32.gt_u(x,y)  bit3 !i32.le_u(x,y)  bit4 !i32.ge_u(x,y)
 //	bit5 !i32.eq(x,y) bit6 i64.extend_i32_u differs  bit7 i64.extend_i32_s differs
-//	bit8 i32.xor(x,y)!=0  bit9 i32.sub(x,y)!=0  bit10 !i32.eqz(x) != !i32.eqz(y) ... all must be 0.
+//	bit8 i32.xor(x,y)!=0  bit9 i32.sub(x,y)!=0  bit10 i32.eqz differs
+//
+// bits 16+j, keep variant: operand j, read again after the instruction, differs (bitwise) from
+// its copy in memory.
 func hasCanon(op *refnum.Op) bool { return op.Result.T == refnum.I32 || op.Result.T == refnum.F32 }
 
-func canonProbe(b *wasmenc.B, t refnum.Type, tmp uint32, scratch int32) {
-	x, y := tmp+1, tmp+2
-	b.LocalSet(tmp)
+// canonProbe expects r in local tmp and leaves the probe flags on the stack.
+func canonProbe(b *wasmenc.B, t refnum.Type, tmp, x, y uint32, scratch int32) {
 	b.LocalGet(tmp)
 	if t == refnum.F32 {
 		b.Raw(wasmenc.OpI32ReinterpretF32)
@@ -184,7 +204,6 @@ func canonProbe(b *wasmenc.B, t refnum.Type, tmp uint32, scratch int32) {
 		b.Mem(wasmenc.OpI32Store, 2, 0)
 	}
 	b.I32Const(scratch).Mem(wasmenc.OpI32Load, 2, 0).LocalSet(y)
-	b.LocalGet(tmp) // first result: r itself
 	xy := func() *wasmenc.B { return b.LocalGet(x).LocalGet(y) }
 	or := func(bit int32) { b.I32Const(bit).Raw(wasmenc.OpI32Shl, wasmenc.OpI32Or) }
 	xy().Raw(wasmenc.OpI32Ne)
@@ -210,19 +229,31 @@ func canonProbe(b *wasmenc.B, t refnum.Type, tmp uint32, scratch int32) {
 	or(10)
 }
 
-func flatTypes(ps []refnum.Param, skip int) []byte {
-	var r []byte
-	for i, p := range ps {
-		if i == skip {
-			continue
-		}
-		if p.T == refnum.V128 {
-			r = append(r, wasmenc.I64, wasmenc.I64)
-		} else {
-			r = append(r, byte(p.T))
-		}
+// poolNoise emits stack-neutral code that makes the compiler pool several 128-bit constants
+// (three v128.const, the swizzle mask, the i8x16 shift mask tables) next to the instruction
+// under test and stores the outcome to scratch memory so that it is not dead. It deliberately
+// uses only a few generic instructions: whether an instruction's own cached per-function state
+// leaks is tested by repeating that instruction in several functions of a module.
+func poolNoise(b *wasmenc.B, scratch int32, salt uint64) {
+	addr := scratch - 48
+	b.I32Const(addr)
+	b.V128Const(0x0706050403020100^salt, 0x0f0e0d0c0b0a0908+salt)
+	b.V128Const(0x8010070000ff100f, 0x0102030405060708^salt)
+	b.FD(0x0e)             // i8x16.swizzle
+	b.I32Const(3).FD(0x6b) // i8x16.shl
+	b.I32Const(1).FD(0x6d) // i8x16.shr_u
+	b.V128Const(0x80007fff40008000, 0x00017fff80008000^salt)
+	b.FD(0x51)          // v128.xor
+	b.FDMem(0x0b, 4, 0) // v128.store
+	b.I32Const(addr).F64(1.2345678).Mem(wasmenc.OpF64Store, 3, 16)
+	b.I32Const(addr).F32(7.25).Mem(wasmenc.OpF32Store, 2, 24)
+}
+
+func flatTypes(p refnum.Param) []byte {
+	if p.T == refnum.V128 {
+		return []byte{wasmenc.I64, wasmenc.I64}
 	}
-	return r
+	return []byte{byte(p.T)}
 }
 
 func loadOp(t refnum.Type) (op byte, align uint32) {
@@ -264,85 +295,169 @@ func pushConst(b *wasmenc.B, t refnum.Type, v refnum.V) {
 	}
 }
 
-// buildModule generates the guest for (op, variant, instances):
-//
-//	f<k>  : the one-instruction function of instance k (exported; v128 values travel as two i64)
-//	run   : (k, n) loops over n operand tuples in memory at inBase (one 16-byte slot per operand),
-//	        calls f<k> through the table and stores the results at outBase + 16*i
-func buildModule(op *refnum.Op, variant string, insts []instance, small bool) []byte {
-	m := &wasmenc.Module{}
-	memPages, outBase, _ := layout(small)
-	src := sources(variant, len(op.Params))
-	fp := funcParams(op, src)
-	fr := flatTypes([]refnum.Param{op.Result}, -1)
-	if hasCanon(op) {
-		fr = append(fr, wasmenc.I32) // second result: the canonical-slot probe flags
+// funcResults: the flattened result followed by the flags word.
+func funcResults(op *refnum.Op) []byte { return append(flatTypes(op.Result), wasmenc.I32) }
+
+// emitFunc generates the body of one function.
+func emitFunc(f fn, k int, small bool) (fp, fr, locals, body []byte) {
+	op := f.op
+	src := sources(f.variant, len(op.Params))
+	fp = funcParams(op, src)
+	fr = funcResults(op)
+	scratch := scratchAddr(small)
+	newLocal := func(t byte) uint32 {
+		locals = append(locals, t)
+		return uint32(len(fp) + len(locals) - 1)
 	}
-	ft := m.AddType(fp, fr)
-	m.Mems = [][]byte{wasmenc.Limits(memPages, int64(memPages), false)}
-	m.Exports = append(m.Exports, wasmenc.Export{Name: "mem", Kind: wasmenc.KMem, Idx: 0})
-	m.Tables = [][]byte{wasmenc.TableType(wasmenc.FuncRef, uint32(len(insts)), int64(len(insts)))}
-	var fidx []uint32
-	for k, in := range insts {
-		b := wasmenc.NewB()
-		local := uint32(0)
-		if hasMem(src) {
-			local = 1
-		}
-		for j, p := range op.Params {
-			switch src[j] {
-			case 'c':
-				pushConst(b, p.T, in.Const)
-			case 'm':
-				b.LocalGet(0)
+	b := wasmenc.NewB()
+	param := uint32(0)
+	if hasAddr(src) {
+		param = 1
+	}
+	// kept operands live in locals (scalars: the parameter itself)
+	kept := make([]uint32, len(op.Params))
+	pidx := make([]uint32, len(op.Params))
+	for j, p := range op.Params {
+		switch src[j] {
+		case 'p', 'k':
+			pidx[j] = param
+			if p.T == refnum.V128 {
+				param += 2
+			} else {
+				param++
+			}
+			if src[j] == 'k' {
+				kept[j] = pidx[j]
 				if p.T == refnum.V128 {
-					b.FDMem(0, 4, uint32(slotBytes*j))
-				} else {
-					o, al := loadOp(p.T)
-					b.Mem(o, al, uint32(slotBytes*j))
-				}
-			case 's':
-				_, sp := splatOf(p.S)
-				b.LocalGet(local).FD(sp)
-				local++
-			default:
-				if p.T == refnum.V128 {
-					b.LocalGet(local).FD(0x12)      // i64x2.splat
-					b.LocalGet(local+1).FD(0x1e, 1) // i64x2.replace_lane 1
-					local += 2
-				} else {
-					b.LocalGet(local)
-					local++
+					kept[j] = newLocal(wasmenc.V128)
+					b.LocalGet(pidx[j]).FD(0x12).LocalGet(pidx[j]+1).FD(0x1e, 1).LocalSet(kept[j])
 				}
 			}
+		case 's':
+			pidx[j] = param
+			param++
 		}
-		b.Append(op.Enc).Raw(in.Imm...)
-		var locals []byte
-		if op.Result.T == refnum.V128 {
-			tmp := uint32(len(fp))
-			locals = []byte{wasmenc.V128}
-			b.LocalSet(tmp).LocalGet(tmp).FD(0x1d, 0).LocalGet(tmp).FD(0x1d, 1)
-		} else if hasCanon(op) {
-			locals = []byte{byte(op.Result.T), wasmenc.I32, wasmenc.I32}
-			canonProbe(b, op.Result.T, uint32(len(fp)), scratchAddr(small))
+	}
+	if f.in.Deco&1 != 0 {
+		poolNoise(b, scratch, uint64(k)*0x0101010101010101)
+	}
+	for j, p := range op.Params {
+		switch src[j] {
+		case 'c':
+			pushConst(b, p.T, f.in.Const)
+		case 'm':
+			b.LocalGet(0)
+			if p.T == refnum.V128 {
+				b.FDMem(0, 4, uint32(slotBytes*j))
+			} else {
+				o, al := loadOp(p.T)
+				b.Mem(o, al, uint32(slotBytes*j))
+			}
+		case 's':
+			_, sp := splatOf(p.S)
+			b.LocalGet(pidx[j]).FD(sp)
+		case 'k':
+			b.LocalGet(kept[j])
+		default:
+			if p.T == refnum.V128 {
+				b.LocalGet(pidx[j]).FD(0x12)      // i64x2.splat
+				b.LocalGet(pidx[j]+1).FD(0x1e, 1) // i64x2.replace_lane 1
+			} else {
+				b.LocalGet(pidx[j])
+			}
 		}
-		idx := m.AddFunc(fp, fr, locals, b.Bytes())
+	}
+	b.Append(op.Enc).Raw(f.in.Imm...)
+	var rt byte = byte(op.Result.T)
+	res := newLocal(rt)
+	flags := newLocal(wasmenc.I32)
+	b.LocalSet(res)
+	if f.in.Deco&2 != 0 {
+		poolNoise(b, scratch, uint64(k)*0x0202020202020202+1)
+	}
+	if hasCanon(op) {
+		x, y := newLocal(wasmenc.I32), newLocal(wasmenc.I32)
+		canonProbe(b, op.Result.T, res, x, y, scratch)
+		b.LocalSet(flags)
+	}
+	for j, p := range op.Params {
+		if src[j] != 'k' {
+			continue
+		}
+		off := uint32(slotBytes * j)
+		b.LocalGet(kept[j])
+		switch p.T {
+		case refnum.I32:
+			b.LocalGet(0).Mem(wasmenc.OpI32Load, 2, off).Raw(wasmenc.OpI32Ne)
+		case refnum.I64:
+			b.LocalGet(0).Mem(wasmenc.OpI64Load, 3, off).Raw(wasmenc.OpI64Ne)
+		case refnum.F32:
+			b.Raw(wasmenc.OpI32ReinterpretF32).LocalGet(0).Mem(wasmenc.OpI32Load, 2, off).Raw(wasmenc.OpI32Ne)
+		case refnum.F64:
+			b.Raw(wasmenc.OpI64ReinterpretF64).LocalGet(0).Mem(wasmenc.OpI64Load, 3, off).Raw(wasmenc.OpI64Ne)
+		default:
+			b.LocalGet(0).FDMem(0, 4, off).FD(0x51).FD(0x53) // v128.xor, v128.any_true
+		}
+		b.I32Const(int32(16 + j)).Raw(wasmenc.OpI32Shl).LocalGet(flags).Raw(wasmenc.OpI32Or).LocalSet(flags)
+	}
+	if op.Result.T == refnum.V128 {
+		b.LocalGet(res).FD(0x1d, 0).LocalGet(res).FD(0x1d, 1)
+	} else {
+		b.LocalGet(res)
+	}
+	b.LocalGet(flags)
+	return fp, fr, locals, b.Bytes()
+}
+
+func homogeneous(fns []fn) bool {
+	for _, f := range fns[1:] {
+		if f.op != fns[0].op || f.variant != fns[0].variant {
+			return false
+		}
+	}
+	return true
+}
+
+// buildModule generates the guest:
+//
+//	f<k>  : function k (exported; v128 values travel as two i64; last result = flags word)
+//	run   : only when all functions share (opcode, variant): (k, n) loops over n operand tuples in
+//	        memory at inBase (one 16-byte slot per operand), calls f<k> through the table and
+//	        stores result and flags at outBase + 32*i
+//	sweep : splat0 modules, see below
+func buildModule(fns []fn, small bool) []byte {
+	m := &wasmenc.Module{}
+	memPages, outBase, _ := layout(small)
+	m.Mems = [][]byte{wasmenc.Limits(memPages, int64(memPages), false)}
+	m.Exports = append(m.Exports, wasmenc.Export{Name: "mem", Kind: wasmenc.KMem, Idx: 0})
+	m.Tables = [][]byte{wasmenc.TableType(wasmenc.FuncRef, uint32(len(fns)), int64(len(fns)))}
+	var fidx []uint32
+	for k, f := range fns {
+		fp, fr, locals, body := emitFunc(f, k, small)
+		idx := m.AddFunc(fp, fr, locals, body)
 		m.ExportFunc("f"+strconv.Itoa(k), idx)
 		fidx = append(fidx, idx)
 	}
 	m.Elems = [][]byte{wasmenc.ActiveElemFuncs(0, fidx)}
+	if !homogeneous(fns) {
+		return m.Encode()
+	}
+	op, variant := fns[0].op, fns[0].variant
+	src := sources(variant, len(op.Params))
+	fr := funcResults(op)
+	ft := m.AddType(funcParams(op, src), fr)
 	// run(k, n): locals 2=i 3=pin 4=pout 5..=result temps
 	stride := int32(slotBytes * len(op.Params))
 	b := wasmenc.NewB()
 	b.I32Const(int32(outBase)).LocalSet(4)
 	b.Block().Loop()
 	b.LocalGet(2).LocalGet(1).Raw(wasmenc.OpI32GeU).BrIf(1)
-	if hasMem(src) {
+	if hasAddr(src) {
 		b.LocalGet(3)
 	}
 	for j, p := range op.Params {
 		switch src[j] {
-		case 'p':
+		case 'p', 'k':
 			if p.T == refnum.V128 {
 				b.LocalGet(3).Mem(wasmenc.OpI64Load, 3, uint32(slotBytes*j))
 				b.LocalGet(3).Mem(wasmenc.OpI64Load, 3, uint32(slotBytes*j+8))
@@ -364,16 +479,20 @@ func buildModule(op *refnum.Op, variant string, insts []instance, small bool) []
 	}
 	for r := range fr {
 		o, al := storeOp(fr[r])
-		b.LocalGet(4).LocalGet(uint32(5+r)).Mem(o, al, uint32(8*r))
+		off := uint32(8 * r)
+		if r == len(fr)-1 {
+			off = 16 // the flags word
+		}
+		b.LocalGet(4).LocalGet(uint32(5+r)).Mem(o, al, off)
 	}
 	b.LocalGet(3).I32Const(stride).Raw(wasmenc.OpI32Add).LocalSet(3)
-	b.LocalGet(4).I32Const(slotBytes).Raw(wasmenc.OpI32Add).LocalSet(4)
+	b.LocalGet(4).I32Const(outBytes).Raw(wasmenc.OpI32Add).LocalSet(4)
 	b.LocalGet(2).I32Const(1).Raw(wasmenc.OpI32Add).LocalSet(2)
 	b.Br(0).End().End()
 	run := m.AddFunc([]byte{wasmenc.I32, wasmenc.I32}, nil, append([]byte{wasmenc.I32, wasmenc.I32, wasmenc.I32}, fr...), b.Bytes())
 	m.ExportFunc("run", run)
-	// sweep(x): (splat0 modules of two-operand instructions) for j < 8192:
-	//   out[j] = op(splat(x), v128.load(in + 16*j))   -- operand 1 vectors are packed 16 bytes apart
+	// sweep(x, n): (splat0 modules of two-operand instructions) for byte offsets j < n step 16:
+	//   out[j] = op(splat(x), v128.load(in + j))   -- operand 1 vectors are packed 16 bytes apart
 	if variant == vSplat0 && len(op.Params) == 2 && op.Result.T == refnum.V128 && op.Imm == refnum.ImmNone {
 		t, sp := splatOf(op.Params[0].S)
 		b := wasmenc.NewB() // locals: 0=x 1=n 2=j(byte offset) 3=v(splat)
@@ -408,10 +527,8 @@ func runtimeFor(engine string) wazero.Runtime {
 }
 
 type loaded struct {
-	op      *refnum.Op
-	variant string
+	fns     []fn
 	engine  string
-	insts   []instance
 	cm      wazero.CompiledModule
 	mod     api.Module
 	run     api.Function
@@ -421,24 +538,66 @@ type loaded struct {
 	chunk   int
 }
 
-func load(op *refnum.Op, variant, engine string, insts []instance, small bool) (*loaded, error) {
-	bin := buildModule(op, variant, insts, small)
+// same builds the function list of a module whose functions share opcode and variant.
+func same(op *refnum.Op, variant string, insts []instance) []fn {
+	fns := make([]fn, len(insts))
+	for i, in := range insts {
+		fns[i] = fn{op, variant, in}
+	}
+	return fns
+}
+
+// load compiles and instantiates the module of the functions. A failure (error or panic of
+// the compiler) of these valid modules is a violation; the returned error says so.
+func load(fns []fn, engine string, small bool) (l *loaded, err error) {
+	bin := buildModule(fns, small)
+	// a compiler crash that kills the process is attributed to this module by the driver
+	evid.Journal(moduleCase(fns, engine))
 	rt := runtimeFor(engine)
-	cm, err := rt.CompileModule(ctx, bin)
-	if err != nil {
-		return nil, fmt.Errorf("compile %s/%s/%s: %w (module %s)", op.Name, variant, engine, err, hex.EncodeToString(bin))
+	var cm wazero.CompiledModule
+	var mod api.Module
+	e, panicked := wz.Safely(func() error {
+		var err error
+		if cm, err = rt.CompileModule(ctx, bin); err != nil {
+			return err
+		}
+		mod, err = rt.InstantiateModule(ctx, cm, wazero.NewModuleConfig().WithName(""))
+		return err
+	})
+	if panicked != nil {
+		e = fmt.Errorf("panic: %v", panicked)
 	}
-	mod, err := rt.InstantiateModule(ctx, cm, wazero.NewModuleConfig().WithName(""))
-	if err != nil {
-		cm.Close(ctx)
-		return nil, fmt.Errorf("instantiate %s/%s/%s: %w", op.Name, variant, engine, err)
+	if e != nil {
+		if cm != nil {
+			cm.Close(ctx)
+		}
+		first := strings.SplitN(e.Error(), "\n", 2)[0]
+		return nil, fmt.Errorf("valid module of %d one-instruction functions (%s) rejected on %s: %s", len(fns), describeFns(fns), engine, first)
 	}
-	l := &loaded{op: op, variant: variant, engine: engine, insts: insts, cm: cm, mod: mod, run: mod.ExportedFunction("run")}
+	l = &loaded{fns: fns, engine: engine, cm: cm, mod: mod, run: mod.ExportedFunction("run")}
 	_, l.outBase, l.chunk = layout(small)
-	for k := range insts {
+	for k := range fns {
 		l.fs = append(l.fs, mod.ExportedFunction("f"+strconv.Itoa(k)))
 	}
 	return l, nil
+}
+
+func describeFns(fns []fn) string {
+	var sb strings.Builder
+	for i, f := range fns {
+		if i > 0 {
+			sb.WriteString(", ")
+		}
+		if i >= 6 {
+			fmt.Fprintf(&sb, "... %d more", len(fns)-i)
+			break
+		}
+		fmt.Fprintf(&sb, "%s/%s", f.op.Name, f.variant)
+		if f.in.Deco != 0 {
+			fmt.Fprintf(&sb, "/deco%d", f.in.Deco)
+		}
+	}
+	return sb.String()
 }
 
 func (l *loaded) close() {
@@ -448,8 +607,9 @@ func (l *loaded) close() {
 
 // outcome of one evaluation on wazero
 type observed struct {
-	V    refnum.V
-	Trap string // "" or the trap kind; any other failure is rendered as "!<kind>:<detail>"
+	V     refnum.V
+	Flags uint32 // the function's flags word (0 = all in-guest probes agree)
+	Trap  string // "" or the trap kind; any other failure is rendered as "!<kind>:<detail>"
 }
 
 func (o observed) String(op *refnum.Op) string {
@@ -457,17 +617,23 @@ func (o observed) String(op *refnum.Op) string {
 		return "trap(" + o.Trap + ")"
 	}
 	s := op.FormatV(op.Result, o.V)
-	if hasCanon(op) && uint32(o.V[1]) != 0 {
-		s += fmt.Sprintf(" held in a non-canonical 32-bit slot (in-guest consumers disagree with the stored/reloaded value: probe flags %#x)", uint32(o.V[1]))
+	if o.Flags&0xffff != 0 {
+		s += fmt.Sprintf(" held in a non-canonical 32-bit slot (in-guest consumers disagree with the stored/reloaded value: probe flags %#x)", o.Flags&0xffff)
+	}
+	for j := 0; j < 3; j++ {
+		if o.Flags>>(16+uint(j))&1 != 0 {
+			s += fmt.Sprintf("; operand %d was CHANGED by the instruction (read again afterwards it differs from its copy in memory)", j)
+		}
 	}
 	return s
 }
 
-// direct calls f<k> once with the tuple's operands (mem variant: through memory).
+// direct calls f<k> once with the tuple's operands.
 func (l *loaded) direct(k int, args []refnum.V) observed {
+	f := l.fns[k]
 	var flat []uint64
-	src := sources(l.variant, len(args))
-	if hasMem(src) {
+	src := sources(f.variant, len(args))
+	if hasAddr(src) {
 		buf := make([]byte, slotBytes*len(args))
 		for j, a := range args {
 			binary.LittleEndian.PutUint64(buf[slotBytes*j:], a[0])
@@ -476,9 +642,9 @@ func (l *loaded) direct(k int, args []refnum.V) observed {
 		l.mod.Memory().Write(inBase, buf)
 		flat = []uint64{inBase}
 	}
-	for j, p := range l.op.Params {
+	for j, p := range f.op.Params {
 		switch src[j] {
-		case 'p':
+		case 'p', 'k':
 			if p.T == refnum.V128 {
 				flat = append(flat, args[j][0], args[j][1])
 			} else if p.T == refnum.I32 || p.T == refnum.F32 {
@@ -498,19 +664,20 @@ func (l *loaded) direct(k int, args []refnum.V) observed {
 	res, out := wz.SafeCall(ctx, l.fs[k], flat...)
 	switch out.Kind {
 	case wz.KOK:
-		var v refnum.V
-		copy(v[:], res)
-		return observed{V: v}
+		var o observed
+		copy(o.V[:], res[:len(res)-1])
+		o.Flags = uint32(res[len(res)-1])
+		return o
 	case wz.KTrap:
 		return observed{Trap: out.Detail}
 	}
 	return observed{Trap: "!" + out.String()}
 }
 
-// bulk evaluates n tuples (args laid out tuple-major, arity = len(op.Params)) through run(k,n)
-// and returns the raw result area, or an error when the guest did not complete.
+// bulk evaluates n tuples (args laid out tuple-major) through run(k,n) and returns the raw
+// result area, or an error when the guest did not complete.
 func (l *loaded) bulk(k int, tuples []refnum.V, n int) ([]byte, error) {
-	ar := len(l.op.Params)
+	ar := len(l.fns[k].op.Params)
 	need := n * ar * slotBytes
 	if cap(l.inBuf) < need {
 		l.inBuf = make([]byte, need)
@@ -524,17 +691,36 @@ func (l *loaded) bulk(k int, tuples []refnum.V, n int) ([]byte, error) {
 	if !mem.Write(inBase, buf) {
 		return nil, fmt.Errorf("harness: in-area write failed")
 	}
+	if l.run == nil {
+		return nil, fmt.Errorf("harness: module has no run loop")
+	}
 	if _, out := wz.SafeCall(ctx, l.run, uint64(k), uint64(n)); out.Kind != wz.KOK {
 		return nil, fmt.Errorf("%s", out.String())
 	}
-	res, ok := mem.Read(l.outBase, uint32(n*slotBytes))
+	res, ok := mem.Read(l.outBase, uint32(n*outBytes))
 	if !ok {
 		return nil, fmt.Errorf("harness: out-area read failed")
 	}
 	return res, nil
 }
 
+// slot decodes result i of the result area.
+func slot(res []byte, i int) observed {
+	o := i * outBytes
+	return observed{V: refnum.V{binary.LittleEndian.Uint64(res[o:]), binary.LittleEndian.Uint64(res[o+8:])},
+		Flags: binary.LittleEndian.Uint32(res[o+16:])}
+}
+
 // ---- replayable case ----
+
+// FnSpec is the replay form of one function of a module.
+type FnSpec struct {
+	Op      string `json:"op"`
+	Variant string `json:"variant"`
+	Imm     string `json:"imm,omitempty"`
+	Const   string `json:"const,omitempty"`
+	Deco    int    `json:"deco,omitempty"`
+}
 
 // Case is the replay form of one evaluation.
 type Case struct {
@@ -542,13 +728,19 @@ type Case struct {
 	Variant  string   `json:"variant"`
 	Engine   string   `json:"engine"`
 	Imm      string   `json:"imm,omitempty"` // hex of the lane / shuffle immediate
-	Args     []string `json:"args"`          // one "lo" or "lo:hi" hex per operand (const operand included)
+	Deco     int      `json:"deco,omitempty"`
+	Args     []string `json:"args"` // one "lo" or "lo:hi" hex per operand (const operand included)
 	Expected string   `json:"expected"`
 	Got      string   `json:"got"`
 	// ViaLoop: the wrong result was only seen through the in-guest loop ("run": the generic
 	// loop calling the one-instruction function, "sweep": the 16-bit sweep loop); replay then
 	// goes the same way.
 	ViaLoop string `json:"via_loop,omitempty"`
+	// Module: when the failure needs the other functions of the generated module (compiler
+	// state leaking from one function to the next), all functions of the module in order;
+	// Index is the function the case is about. Without Args the case is "the module compiles".
+	Module []FnSpec `json:"module,omitempty"`
+	Index  int      `json:"index,omitempty"`
 }
 
 func fmtV(p refnum.Param, v refnum.V) string {
@@ -577,8 +769,44 @@ func parseV(s string) (refnum.V, error) {
 	return v, nil
 }
 
-func mkCase(op *refnum.Op, variant, engine string, imm []byte, args []refnum.V, want refnum.Res, got observed) Case {
-	c := Case{Op: op.Name, Variant: variant, Engine: engine, Imm: hex.EncodeToString(imm), Expected: op.Describe(want), Got: got.String(op)}
+func specOf(f fn) FnSpec {
+	s := FnSpec{Op: f.op.Name, Variant: f.variant, Imm: hex.EncodeToString(f.in.Imm), Deco: f.in.Deco}
+	if ci := constIdx(f.variant); ci >= 0 && ci < len(f.op.Params) {
+		s.Const = fmtV(f.op.Params[ci], f.in.Const)
+	}
+	return s
+}
+
+func fnOf(s FnSpec) (fn, error) {
+	op := refnum.ByName(s.Op)
+	if op == nil {
+		return fn{}, fmt.Errorf("unknown op %q", s.Op)
+	}
+	imm, err := hex.DecodeString(s.Imm)
+	if err != nil {
+		return fn{}, err
+	}
+	f := fn{op: op, variant: s.Variant, in: instance{Imm: imm, Deco: s.Deco}}
+	if s.Const != "" {
+		if f.in.Const, err = parseV(s.Const); err != nil {
+			return fn{}, err
+		}
+	}
+	return f, nil
+}
+
+func moduleCase(fns []fn, engine string) Case {
+	c := Case{Op: fns[0].op.Name, Variant: fns[0].variant, Engine: engine}
+	for _, f := range fns {
+		c.Module = append(c.Module, specOf(f))
+	}
+	return c
+}
+
+func mkCase(f fn, engine string, args []refnum.V, want refnum.Res, got observed) Case {
+	op := f.op
+	c := Case{Op: op.Name, Variant: f.variant, Engine: engine, Imm: hex.EncodeToString(f.in.Imm), Deco: f.in.Deco,
+		Expected: op.Describe(want), Got: got.String(op)}
 	for j, a := range args {
 		c.Args = append(c.Args, fmtV(op.Params[j], a))
 	}
@@ -590,22 +818,53 @@ func judge(op *refnum.Op, want refnum.Res, got observed) bool {
 	if want.Trap != "" || got.Trap != "" {
 		return want.Trap == got.Trap
 	}
-	if hasCanon(op) && uint32(got.V[1]) != 0 {
-		return false // the low 32 bits may be right, but consumers inside the guest see another value
+	if got.Flags != 0 {
+		return false // the result may be right, but a probe inside the guest saw a wrong value
 	}
 	return op.Match(want, got.V)
 }
 
 // execCase re-executes one case from scratch (used by TestReplay and to confirm failures).
 func execCase(c Case) (ok bool, msg string, err error) {
-	op := refnum.ByName(c.Op)
-	if op == nil {
-		return false, "", fmt.Errorf("unknown op %q", c.Op)
+	var fns []fn
+	idx := 0
+	if len(c.Module) > 0 {
+		for _, s := range c.Module {
+			f, err := fnOf(s)
+			if err != nil {
+				return false, "", err
+			}
+			fns = append(fns, f)
+		}
+		idx = c.Index
+		if idx < 0 || idx >= len(fns) {
+			return false, "", fmt.Errorf("index")
+		}
+	} else {
+		f, err := fnOf(FnSpec{Op: c.Op, Variant: c.Variant, Imm: c.Imm, Deco: c.Deco})
+		if err != nil {
+			return false, "", err
+		}
+		if ci := constIdx(c.Variant); ci >= 0 {
+			if ci >= len(c.Args) {
+				return false, "", fmt.Errorf("const index")
+			}
+			if f.in.Const, err = parseV(c.Args[ci]); err != nil {
+				return false, "", err
+			}
+		}
+		fns = []fn{f}
 	}
-	imm, err := hex.DecodeString(c.Imm)
-	if err != nil {
-		return false, "", err
+	l, lerr := load(fns, c.Engine, c.ViaLoop != "sweep")
+	if lerr != nil {
+		return false, lerr.Error(), nil // a valid module that does not compile is a violation
 	}
+	defer l.close()
+	if len(c.Args) == 0 {
+		return true, "", nil // module-level case: it compiles
+	}
+	f := fns[idx]
+	op := f.op
 	if len(c.Args) != len(op.Params) {
 		return false, "", fmt.Errorf("arity")
 	}
@@ -615,18 +874,7 @@ func execCase(c Case) (ok bool, msg string, err error) {
 			return false, "", err
 		}
 	}
-	in := instance{Imm: imm}
-	if ci := constIdx(c.Variant); ci >= 0 {
-		if ci >= len(args) {
-			return false, "", fmt.Errorf("const index")
-		}
-		in.Const = args[ci]
-	}
-	l, err := load(op, c.Variant, c.Engine, []instance{in}, c.ViaLoop != "sweep")
-	if err != nil {
-		return false, "", err
-	}
-	defer l.close()
+	imm := f.in.Imm
 	want := op.Eval(args, imm)
 	var got observed
 	switch c.ViaLoop {
@@ -638,13 +886,13 @@ func execCase(c Case) (ok bool, msg string, err error) {
 		for i := 0; i < 64; i++ {
 			rep = append(rep, args...)
 		}
-		res, err := l.bulk(0, rep, 64)
+		res, err := l.bulk(idx, rep, 64)
 		if err != nil {
 			got = observed{Trap: "!loop: " + err.Error()}
 			break
 		}
 		for i := 0; i < 64; i++ {
-			got = observed{V: refnum.V{binary.LittleEndian.Uint64(res[i*16:]), binary.LittleEndian.Uint64(res[i*16+8:])}}
+			got = slot(res, i)
 			if !judge(op, want, got) {
 				break
 			}
@@ -669,11 +917,29 @@ func execCase(c Case) (ok bool, msg string, err error) {
 		res, _ := l.mod.Memory().Read(l.outBase+uint32(16*j), 16)
 		got = observed{V: refnum.V{binary.LittleEndian.Uint64(res), binary.LittleEndian.Uint64(res[8:])}}
 	default:
-		got = l.direct(0, args)
+		got = l.direct(idx, args)
 	}
 	if judge(op, want, got) {
 		return true, "", nil
 	}
-	return false, fmt.Sprintf("%s [%s, %s] imm=%s args=%v: specified %s, wazero returned %s", c.Op, c.Variant, c.Engine, c.Imm, c.Args,
+	where := ""
+	if len(fns) > 1 {
+		where = fmt.Sprintf(" as function %d of the module (%s)", idx, describeFns(fns))
+	}
+	return false, fmt.Sprintf("%s [%s, %s] imm=%x args=%v%s: specified %s, wazero returned %s", op.Name, f.variant, c.Engine, imm, c.Args, where,
 		op.Describe(want), got.String(op)), nil
+}
+
+// minimise attaches the module context to a failing case only when the function alone does
+// not show the failure.
+func minimise(l *loaded, k int, c Case) Case {
+	if len(l.fns) == 1 {
+		return c
+	}
+	if ok, _, err := execCase(c); err == nil && !ok {
+		return c
+	}
+	m := moduleCase(l.fns, l.engine)
+	c.Module, c.Index = m.Module, k
+	return c
 }
